@@ -42,6 +42,17 @@ VocabularyMatchesGrammar ==
      \A t \in DOMAIN G.literals :
         \E k \in 1..Len(V.symbolic) : V.symbolic[k] = t /\ k <= Len(V.literal) /\ V.literal[k] = G.literals[t]
   /\ AnyReplica("parser").symbolic = AnyReplica("lexer").symbolic
+\* the integer constants every generated class exports (token types, rule indices, lexer modes) are the numbering of the vocabulary:
+\* symbolic name k stands at position k + 1, rule j at position j + 1, mode m at position m + 1 of the grammar's mode list
+Consts(l, a) == LET r == Logged[CHOOSE i \in Recs("constants") : Logged[i].lang = l /\ Logged[i].artefact = a]
+                IN { <<r.pairs[k][1], r.pairs[k][2]>> : k \in 1..Len(r.pairs) }
+TokenConsts(a) == LET S == AnyReplica(a).symbolic IN { <<S[k], k - 1>> : k \in { j \in 1..Len(S) : S[j] # "" } }
+RuleConsts == LET R == AnyReplica("parser").rules IN { <<"RULE_" \o R[j], j - 1>> : j \in 1..Len(R) }
+ModeConsts == LET M == Grammar("lexer").modes IN { <<M[j], j - 1>> : j \in 2..Len(M) }
+ConstantsNumberTheVocabulary ==
+  /\ { <<Logged[i].lang, Logged[i].artefact>> : i \in Recs("constants") } = {"go", "js", "java"} \X {"lexer", "parser"}
+  /\ \A l \in {"go", "js", "java"} : /\ Consts(l, "lexer") = TokenConsts("lexer") \cup ModeConsts
+                                      /\ Consts(l, "parser") = TokenConsts("parser") \cup RuleConsts
 \* per parser rule, the tokens and rules its ATN sub-automaton refers to are those its grammar body names
 AtnRefs == Logged[CHOOSE i \in Recs("atnrefs") : TRUE].refs
 RuleBodiesMatchATN ==
